@@ -131,6 +131,8 @@ def _run_one(lines, schedule, x_from=4):
         ob = run.tick()
         if "tick_exception" in ob:
             probs.append(("C15:tick-raised", f"Engine.tick raised {ob['tick_exception']}"))
+        if not run.flags()["started"]:
+            run.injected_nodes.clear()          # injected code belongs to the run it was injected into (the run log starts afresh)
         new = runlog_problems(ob, node_table(run)) if run.flags()["started"] else runlog_problems(ob)
         if isinstance(ob.get("runlog"), str) and _nested_in_alarm(lines, getattr(run, "last_runlog_failure_node", None)):
             new = [((s_ + ":nested-in-Alarm") if s_.startswith("C15:runlog-raises:") else s_, w) for s_, w in new]
